@@ -712,6 +712,10 @@ Fixpoint scale_down_loop (fuel : nat) (epoch average remainder dst_master_num : 
           match csub d1 existing with
           | None => Panic
           | Some need =>
+            if N.eqb need 0 then   (* this master already owns its final number of slots *)
+              scale_down_loop fuel' epoch average remainder dst_master_num dst_existing src_idx src_part rl
+                              (mkAcc (a_dst acc + 1) (a_cur acc) (a_num acc) (a_migs acc))
+            else
             match slots_num rl with
             | None => Panic
             | Some available =>
